@@ -330,6 +330,57 @@ func (x xform) marginTok() string {
 	return "1/" + strconv.FormatInt(1<<uint(-e), 10)
 }
 
+// emptyRegion turns a general-position pair into a call whose combined region is empty for a reason the Lean oracle
+// can certify exactly (EO.emptyCert): operands separated by a vertical or horizontal line (Intersect; with a vertical
+// separator both operands are in the active edge table at the same time), identical operands (Sub, Xor: passed as the
+// same slice), B the axis-parallel rectangle [[(x0,y0),(x1,y0),(x1,y1),(x0,y1)]] around A (Sub).
+func emptyRegion(r *hx.Rng, ft string, a, b fpoly) (string, fpoly, fpoly) {
+	squeeze := func(p fpoly, lo float64, vertical bool) fpoly {
+		q := make(fpoly, len(p))
+		for i, c := range p {
+			q[i] = make(fcontour, len(c))
+			for j, v := range c {
+				if vertical {
+					q[i][j] = fpt{quant(lo+v.x*7/16, ft), v.y}
+				} else {
+					q[i][j] = fpt{v.x, quant(lo+v.y*7/16, ft)}
+				}
+			}
+		}
+		return q
+	}
+	switch r.Intn(6) {
+	case 0, 1, 2:
+		vertical := r.Chance(2, 3)
+		lo1, lo2 := 0.0, 9.0
+		if r.Bool() {
+			lo1, lo2 = lo2, lo1
+		}
+		return "i", squeeze(a, lo1, vertical), squeeze(b, lo2, vertical)
+	case 3:
+		return "s", a, a
+	case 4:
+		return "x", a, a
+	default:
+		x0, y0, x1, y1 := math.Inf(1), math.Inf(1), math.Inf(-1), math.Inf(-1)
+		for _, c := range a {
+			for _, v := range c {
+				x0, y0, x1, y1 = min(x0, v.x), min(y0, v.y), max(x1, v.x), max(y1, v.y)
+			}
+		}
+		x0, y0 = quant(x0-0.25-rnd(r), ft), quant(y0-0.25-rnd(r), ft)
+		x1, y1 = quant(x1+0.25+rnd(r), ft), quant(y1+0.25+rnd(r), ft)
+		return "s", a, fpoly{{{x0, y0}, {x1, y0}, {x1, y1}, {x0, y1}}}
+	}
+}
+
+func sameFPoly(a, b fpoly) bool {
+	if len(a) != len(b) || len(a) == 0 {
+		return false
+	}
+	return &a[0] == &b[0]
+}
+
 // ---------------------------------------------------------------------------------------------- observation only
 
 // genTinyGeneral / genTinyLattice: the regular families scaled by 2^-20 (coordinates around 1e-6 … 1e-5): every
